@@ -18,8 +18,15 @@ Theorem C19_out_of_range_rejected :
   forall (V : Type) pvalid (p : params V) kw p',
     kw <> [] -> assign V p kw = (p', true) -> pvalid p' = false -> snd (set_params V pvalid p kw) = false.
 Proof. exact set_invalid_rejected. Qed.
+Theorem C19_rejected_call_changes_nothing :
+  forall (V : Type) pvalid (p : params V) kw, snd (set_params V pvalid p kw) = false -> fst (set_params V pvalid p kw) = p.
+Proof. exact set_rejected_unchanged. Qed.
+Theorem C19_accepted_call_installs_valid_values :
+  forall (V : Type) pvalid (p : params V) kw p', kw <> [] -> set_params V pvalid p kw = (p', true) ->
+    assign V p kw = (p', true) /\ pvalid p' = true.
+Proof. exact set_accepted. Qed.
 Theorem C19_set_then_attribute_mirrors :
-  forall (V : Type) pvalid (p : params V) k v, has V p k = true ->
+  forall (V : Type) pvalid (p : params V) k v, has V p k = true -> pvalid (pset V p k v) = true ->
     getattr V (fst (set_params V pvalid p [(k, v)])) k = Some v /\
     (forall k', k <> k' -> getattr V (fst (set_params V pvalid p [(k, v)])) k' = getattr V p k') /\
     map fst (fst (set_params V pvalid p [(k, v)])) = map fst p.
@@ -30,11 +37,13 @@ Theorem C19_owned_state_unaffected_by_mutation :
 Proof. exact @ownership_frame. Qed.
 Print Assumptions C19_set_get_noop.
 Print Assumptions C19_owned_state_unaffected_by_mutation.
+Print Assumptions C19_rejected_call_changes_nothing.
+Print Assumptions C19_accepted_call_installs_valid_values.
 
 Open Scope string_scope.
 Example C19_example :
   let valid := fun p : list (string * nat) => match pget nat p "rho" with Some r => Nat.leb r 8 | None => false end in
   set_params nat valid [("rho", 4); ("beta", 8)] [("rho", 6)] = ([("rho", 6); ("beta", 8)], true) /\
-  snd (set_params nat valid [("rho", 4); ("beta", 8)] [("rho", 9)]) = false /\
+  set_params nat valid [("rho", 4); ("beta", 8)] [("rho", 9)] = ([("rho", 4); ("beta", 8)], false) /\
   snd (set_params nat valid [("rho", 4); ("beta", 8)] [("gamma", 1)]) = false.
 Proof. vm_compute. repeat split. Qed.
